@@ -15,7 +15,9 @@ the consumer returning early at any point or not at all — every execution that
 longer move has both goroutines terminated. -/
 theorem apply_no_strand_partial (items : Nat) (early : Option Nat) (c : ApplyCfg)
     (hr : ApplyReach true (applyInit items early) c) (ht : applyTerminal true c) : applyAllDone c := by
-  sorry
+  refine applyInv_terminal (applyInv_reach ?_ hr) ht
+  intro h
+  simp [applyInit] at h
 
 /-- Progress measure: executions are finite (no livelock either). -/
 def applyMeasure (c : ApplyCfg) : Nat :=
@@ -24,31 +26,42 @@ def applyMeasure (c : ApplyCfg) : Nat :=
 
 theorem apply_steps_decrease (repaired : Bool) (c c' : ApplyCfg) (h : c' ∈ applyStep repaired c) :
     applyMeasure c' < applyMeasure c := by
-  sorry
+  obtain ⟨p, k, s⟩ := c
+  revert c'
+  rcases p with (_ | n) | _ <;> rcases k with (_ | _ | k) | _ <;> cases s <;>
+    simp [applyStep, applyMeasure] <;> omega
 
 /-- **APPLY, pinned (D8).** Two combinations and a consumer that returns after the first
 (an invalid rule with two matches): the producer stays blocked on its second send. -/
 theorem apply_strands_pinned :
     ∃ c, ApplyReach false (applyInit 2 (some 1)) c ∧ applyTerminal false c ∧ c.prod = .sending 1 := by
-  sorry
+  refine ⟨{ prod := .sending 1, cons := .returned, stopClosed := false }, ?_, rfl, rfl⟩
+  refine .step (c := { prod := .sending 1, cons := .taking (some 0), stopClosed := false }) ?_ (by decide)
+  exact .step .refl (by decide)
 
 /-- The pinned protocol is fine exactly when the consumer never returns early — which is
 why the 306 tests never saw it. -/
 theorem apply_pinned_ok_without_early_exit (items : Nat) (c : ApplyCfg)
     (hr : ApplyReach false (applyInit items none) c) (ht : applyTerminal false c) : applyAllDone c := by
-  sorry
+  exact applyInvNone_terminal (applyInvNone_reach (Or.inl rfl) hr) ht
 
 /-- **RUN, repaired.** Whatever the moment the timeout fires, every execution that can no
 longer move has the evaluation goroutine exited and the caller returned. -/
 theorem run_no_strand_partial (c : RunCfg) (hr : RunReach true c) (ht : runTerminal true c) :
     c.worker = .exited ∧ c.caller = .returned := by
-  sorry
+  -- terminality alone forces both; reachability is not needed in the repaired protocol
+  have _ := hr
+  exact run_terminal_done ht
 
 /-- **RUN, pinned (D8).** The timeout wins the race: the evaluation goroutine blocks forever
 on its unbuffered `done <-`. -/
 theorem run_strands_pinned :
     ∃ c, RunReach false c ∧ runTerminal false c ∧ c.worker = .delivering ∧ c.caller = .returned := by
-  sorry
+  refine ⟨{ worker := .delivering, caller := .returned, timedOut := true, buffered := false },
+    ?_, rfl, rfl, rfl⟩
+  refine .step (c := { worker := .delivering, caller := .waiting, timedOut := true, buffered := false }) ?_ (by decide)
+  refine .step (c := { worker := .computing, caller := .waiting, timedOut := true, buffered := false }) ?_ (by decide)
+  exact .step .init (by decide)
 
 def runMeasure (c : RunCfg) : Nat :=
   (match c.worker with | .computing => 4 | .delivering => 2 | .exited => 0) +
@@ -57,7 +70,10 @@ def runMeasure (c : RunCfg) : Nat :=
 
 theorem run_steps_decrease (repaired : Bool) (c c' : RunCfg) (h : c' ∈ runStep repaired c) :
     runMeasure c' < runMeasure c := by
-  sorry
+  obtain ⟨w, k, t, b⟩ := c
+  revert c'
+  cases repaired <;> cases w <;> cases k <;> cases t <;> cases b <;>
+    simp [runStep, runMeasure]
 
 /-! Non-vacuity: the repaired APPLY protocol on the D8 shape reaches a state with everything done. -/
 example : ApplyReach true (applyInit 2 (some 1)) { prod := .finished, cons := .returned, stopClosed := true } := by
